@@ -65,6 +65,7 @@ def build_schema(rng, fmt, redundant, neutral=True):
     isar = fmt == 'isar'
     kw = dict(allow_octal=not isar, allow_neg=not isar)
     names = []
+    names_big = []
     items = []
     sch = S.Schema()
 
@@ -112,6 +113,15 @@ def build_schema(rng, fmt, redundant, neutral=True):
         sch.add(S.Const(name, v, txt))
         items.append({'role': 'constant', 'name': name, 'tree': t, 'value': v, 'text': txt})
         names.append((name, v))
+    if not isar:
+        # 64-bit-scale constants: exact integer division is required from both evaluators
+        for i in range(9, 13):
+            t, v = E.gen_big(rng, [(n, x) for n, x in names if x > (1 << 40)])
+            txt = E.render(t, rng, redundant)
+            name = 'K%d' % i
+            sch.add(S.Const(name, v, txt))
+            items.append({'role': 'big-constant', 'name': name, 'tree': t, 'value': v, 'text': txt})
+            names_big.append((name, v))
     smem = []
     for i, (tp, kind, hi) in enumerate([('u8', S.FIXED, 24), ('u16', S.FIXED, 12), ('u32', S.LIMITED, 9),
                                         ('byte', S.FIXED, 16), ('u64', S.FIXED, 5)]):
@@ -171,7 +181,7 @@ def cpp_values(acc, wd, gen, items, stem):
     """Compile a printer over the generated raw header; returns {name: int}."""
     lines = ['#include <cstdio>', '#include "%s.pp.hpp"' % stem, 'int main()', '{']
     for it in items:
-        if it['role'] in ('constant', 'enumerator'):
+        if it['role'] in ('constant', 'enumerator', 'big-constant'):
             lines.append('    printf("%s %%lld\\n", (long long)%s);' % (it['name'], it['name']))
         elif it['role'] == 'array-size':
             lines.append('    printf("%s %%lld\\n", (long long)(sizeof(((SX*)0)->%s) / sizeof(((SX*)0)->%s[0])));'
@@ -265,7 +275,8 @@ def run_shard(spec):
             except cppdrv.BuildFailed as e:
                 acc.violation(PROP, ISAR_MECH if sensitive else 'generated-cpp-does-not-compile', witness(error=str(e)[-800:]))
             import prophyc.calc as calc
-            known = dict((n, v) for n, v in [(i['name'], i['value']) for i in items if i['role'] in ('constant', 'enumerator')])
+            known = dict((n, v) for n, v in [(i['name'], i['value']) for i in items
+                                             if i['role'] in ('constant', 'enumerator', 'big-constant')])
             for it in items:
                 acc.ev()
                 acc.count('role:' + it['role'])
@@ -285,7 +296,7 @@ def run_shard(spec):
                         acc.violation(PROP, '%s-value-differs:%s' % (where, it['role']), witness(it, where=where, got=repr(got)))
                 # (a) model
                 if fmt == 'prophy':
-                    if it['role'] == 'constant':
+                    if it['role'] in ('constant', 'big-constant'):
                         mv = ml[('constant', it['name'])].value
                     elif it['role'] == 'enumerator':
                         mv = ml[('enumerator', it['name'])].value
@@ -316,7 +327,7 @@ def run_shard(spec):
                 # (b) python
                 if mod is not None:
                     try:
-                        if it['role'] in ('constant', 'enumerator'):
+                        if it['role'] in ('constant', 'enumerator', 'big-constant'):
                             pv = getattr(mod, it['name'])
                         elif it['role'] == 'array-size':
                             x = mod.SX()
